@@ -35,12 +35,16 @@ structure Block where
   pay : Pay
   deriving Inhabited
 
-structure DState where
+/-- the heap: block id ↦ block (ids are never reused), `next` = first unused id -/
+structure Heap where
   heap : Nat → Option Block
   next : Nat
+
+structure DState where
+  h : Heap
   vars : Nat → Cell
 
-def dinit : DState := { heap := fun _ => none, next := 0, vars := fun _ => .null }
+def dinit : DState := { h := { heap := fun _ => none, next := 0 }, vars := fun _ => .null }
 
 def Pay.type : Pay → Nat
   | .map _ => 7 | .list _ => 8 | .array _ => 9 | .str _ => 10
@@ -51,23 +55,23 @@ def Pay.cells : Pay → List Cell
   | .array cs => cs
   | .map m => m.map (·.2)
 
-def cellType (s : DState) : Cell → Nat
+def cellType (s : Heap) : Cell → Nat
   | .null => 0
   | .inl x => x.type
   | .ptr b => (match s.heap b with | some blk => blk.pay.type | none => 0)
 
-def cellRef (s : DState) : Cell → Nat
+def cellRef (s : Heap) : Cell → Nat
   | .ptr b => (match s.heap b with | some blk => blk.ref | none => 0)
   | _ => 0
 
 /-- `toString() const` of the Variant in a cell -/
-def cellStr (ds : DblSem) (s : DState) : Cell → Str
+def cellStr (ds : DblSem) (s : Heap) : Cell → Str
   | .null => []
   | .inl x => x.toStr ds
   | .ptr b => (match s.heap b with | some ⟨_, .str t⟩ => t | _ => [])
 
 /-- the abstract value of a cell (`fuel` bounds the nesting depth; `next + 1` always suffices) -/
-def readCell : Nat → DState → Cell → Val
+def readCell : Nat → Heap → Cell → Val
   | 0, _, _ => .null
   | f + 1, s, c =>
     match c with
@@ -83,22 +87,22 @@ def readCell : Nat → DState → Cell → Val
           | .array cs => .array (cs.map (readCell f s))
           | .map m => .map (m.map (fun p => (p.1, readCell f s p.2)))))
 
-def DState.read (s : DState) (v : Nat) : Val := readCell (s.next + 1) s (s.vars v)
+def DState.read (s : DState) (v : Nat) : Val := readCell (s.h.next + 1) s.h (s.vars v)
 
 /-! ### reference counting -/
 
-def incr (s : DState) (b : Nat) : DState :=
+def incr (s : Heap) (b : Nat) : Heap :=
   match s.heap b with
   | some blk => { s with heap := upd s.heap b (some { blk with ref := blk.ref + 1 }) }
   | none => s
 
 /-- `Variant(const Variant& other)`: the new object's cell -/
-def copyCell (s : DState) : Cell → DState × Cell
+def copyCell (s : Heap) : Cell → Heap × Cell
   | .ptr b => (incr s b, .ptr b)
   | .inl x => (s, .inl x)
   | .null => (s, .inl .null)
 
-def copyCells (s : DState) : List Cell → DState × List Cell
+def copyCells (s : Heap) : List Cell → Heap × List Cell
   | [] => (s, [])
   | c :: t =>
     let (s1, c') := copyCell s c
@@ -106,7 +110,7 @@ def copyCells (s : DState) : List Cell → DState × List Cell
     (s2, c' :: t')
 
 /-- copy construction of a payload: `String(const String&)`, `List(const List&)`, … -/
-def copyPay (s : DState) : Pay → DState × Pay
+def copyPay (s : Heap) : Pay → Heap × Pay
   | .str x => (s, .str x)
   | .list cs => let (s', cs') := copyCells s cs; (s', .list cs')
   | .array cs => let (s', cs') := copyCells s cs; (s', .array cs')
@@ -114,7 +118,7 @@ def copyPay (s : DState) : Pay → DState × Pay
 
 /-- `clear()` / `~Variant()` of the Variant in a cell: decrement, and at zero destroy the payload
     (every element in turn) and free the block.  `none`: out of fuel or dangling pointer. -/
-def release : Nat → DState → Cell → Option DState
+def release : Nat → Heap → Cell → Option Heap
   | 0, _, _ => none
   | f + 1, s, c =>
     match c with
@@ -127,19 +131,19 @@ def release : Nat → DState → Cell → Option DState
          else some { s with heap := upd s.heap b (some { blk with ref := blk.ref - 1 }) })
     | _ => some s
 
-def releaseAll (fuel : Nat) (s : DState) (cs : List Cell) : Option DState :=
+def releaseAll (fuel : Nat) (s : Heap) (cs : List Cell) : Option Heap :=
   cs.foldlM (fun s' c' => release fuel s' c') s
 
-def alloc (s : DState) (p : Pay) : DState × Nat :=
+def alloc (s : Heap) (p : Pay) : Heap × Nat :=
   ({ s with heap := upd s.heap s.next (some ⟨1, p⟩), next := s.next + 1 }, s.next)
 
-def setPay (s : DState) (b : Nat) (p : Pay) : DState :=
+def setPay (s : Heap) (b : Nat) (p : Pay) : Heap :=
   match s.heap b with
   | some blk => { s with heap := upd s.heap b (some { blk with pay := p }) }
   | none => s
 
 /-- a literal as a Variant of its own (scalars inline, a string in a fresh block) -/
-def mkLit (s : DState) (x : Val) : DState × Cell :=
+def mkLit (s : Heap) (x : Val) : Heap × Cell :=
   match x with
   | .null => (s, .null)
   | .str t => let (s1, b) := alloc s (.str t); (s1, .ptr b)
@@ -147,23 +151,23 @@ def mkLit (s : DState) (x : Val) : DState × Cell :=
 
 /-- the element a container operation stores for a source: a copy of the variable, or (literal)
     the copy of a temporary that is destroyed right after — one fresh handle either way -/
-def srcCopy (s : DState) : Src → DState × Cell
-  | .var w => copyCell s (s.vars w)
+def srcCopy (rd : Nat → Cell) (s : Heap) : Src → Heap × Cell
+  | .var w => copyCell s (rd w)
   | .lit x => mkLit s x
 
-def srcCopies (s : DState) : List Src → DState × List Cell
+def srcCopies (rd : Nat → Cell) (s : Heap) : List Src → Heap × List Cell
   | [] => (s, [])
   | x :: t =>
-    let (s1, c) := srcCopy s x
-    let (s2, cs) := srcCopies s1 t
+    let (s1, c) := srcCopy rd s x
+    let (s2, cs) := srcCopies rd s1 t
     (s2, c :: cs)
 
-def emptyPay (ds : DblSem) (s : DState) (kind : Nat) (c : Cell) : Pay :=
+def emptyPay (ds : DblSem) (s : Heap) (kind : Nat) (c : Cell) : Pay :=
   if kind = 7 then .map [] else if kind = 8 then .list [] else if kind = 9 then .array [] else .str (cellStr ds s c)
 
 /-- the mutable accessor of type `kind` on the Variant in cell `c`; returns the new cell (a pointer
     to a block of that type with `ref = 1`) -/
-def accessCell (fuel : Nat) (ds : DblSem) (s : DState) (c : Cell) (kind : Nat) : Option (DState × Cell) :=
+def accessCell (fuel : Nat) (ds : DblSem) (s : Heap) (c : Cell) (kind : Nat) : Option (Heap × Cell) :=
   if cellType s c ≠ kind ∨ cellRef s c > 1 then
     -- the copy of the const accessor's result
     let (s1, p) :=
@@ -205,28 +209,28 @@ def Pay.setCell : Pay → Step → Cell → Pay
   | p, _, _ => p
 
 /-- build the temporary `HashMap` of a typed map argument: `append(key, value)` overwrites an existing key -/
-def tmpMap (fuel : Nat) (s : DState) : List (Str × Src) → List (Str × Cell) → Option (DState × List (Str × Cell))
+def tmpMap (fuel : Nat) (rd : Nat → Cell) (s : Heap) : List (Str × Src) → List (Str × Cell) → Option (Heap × List (Str × Cell))
   | [], acc => some (s, acc)
   | (k, x) :: t, acc =>
-    let (s1, c) := srcCopy s x
+    let (s1, c) := srcCopy rd s x
     match mapGet acc k with
     | some old =>
       (match release fuel s1 old with
-       | some s2 => tmpMap fuel s2 t (mapPut acc k c)
+       | some s2 => tmpMap fuel rd s2 t (mapPut acc k c)
        | none => none)
-    | none => tmpMap fuel s1 t (acc ++ [(k, c)])
+    | none => tmpMap fuel rd s1 t (acc ++ [(k, c)])
 
 /-- the temporary container of a typed constructor / assignment argument -/
-def tmpPay (fuel : Nat) (s : DState) : ValS → Option (DState × Pay)
+def tmpPay (fuel : Nat) (rd : Nat → Cell) (s : Heap) : ValS → Option (Heap × Pay)
   | .lit (.str t) => some (s, .str t)
   | .lit _ => none
-  | .list l => let (s1, cs) := srcCopies s l; some (s1, .list cs)
-  | .array l => let (s1, cs) := srcCopies s l; some (s1, .array cs)
-  | .map m => (tmpMap fuel s m []).map (fun r => (r.1, .map r.2))
+  | .list l => let (s1, cs) := srcCopies rd s l; some (s1, .list cs)
+  | .array l => let (s1, cs) := srcCopies rd s l; some (s1, .array cs)
+  | .map m => (tmpMap fuel rd s m []).map (fun r => (r.1, .map r.2))
 
 /-- accessor of type `kind`, then a change of the payload through the returned reference -/
-def withAccess (fuel : Nat) (ds : DblSem) (s : DState) (c : Cell) (kind : Nat)
-    (f : DState → Pay → Option (DState × Pay)) : Option (DState × Cell) :=
+def withAccess (fuel : Nat) (ds : DblSem) (s : Heap) (c : Cell) (kind : Nat)
+    (f : Heap → Pay → Option (Heap × Pay)) : Option (Heap × Cell) :=
   match accessCell fuel ds s c kind with
   | some (s1, .ptr b) =>
     (match s1.heap b with
@@ -238,7 +242,7 @@ def withAccess (fuel : Nat) (ds : DblSem) (s : DState) (c : Cell) (kind : Nat)
   | _ => none
 
 /-- the typed `operator=` for String / List / Array / HashMap with the temporary argument `p` -/
-def setBoxedCell (fuel : Nat) (s : DState) (c : Cell) (p : Pay) : Option (DState × Cell) :=
+def setBoxedCell (fuel : Nat) (s : Heap) (c : Cell) (p : Pay) : Option (Heap × Cell) :=
   if cellType s c ≠ p.type ∨ cellRef s c > 1 then
     match release fuel s c with
     | some s1 =>
@@ -259,12 +263,12 @@ def setBoxedCell (fuel : Nat) (s : DState) (c : Cell) (p : Pay) : Option (DState
     | _ => none
 
 /-- the operation at the end of the path on the Variant in cell `c` -/
-def leafOp (fuel : Nat) (ds : DblSem) (s : DState) (c : Cell) : LeafS → Option (DState × Cell)
+def leafOp (fuel : Nat) (ds : DblSem) (rd : Nat → Cell) (s : Heap) (c : Cell) : LeafS → Option (Heap × Cell)
   | .assign src =>
     -- operator=(const Variant&): take the source first, then clear(), then install
     (match src with
      | .var w =>
-       let (s1, c') := copyCell s (s.vars w)
+       let (s1, c') := copyCell s (rd w)
        (release fuel s1 c).map (fun s2 => (s2, c'))
      | .lit x =>
        let (s0, t) := mkLit s x
@@ -282,7 +286,7 @@ def leafOp (fuel : Nat) (ds : DblSem) (s : DState) (c : Cell) : LeafS → Option
        else if cellType s c ≠ x.type then (release fuel s c).map (fun s1 => (s1, .inl x))
        else some (s, .inl x)
      | e =>
-       (match tmpPay fuel s e with
+       (match tmpPay fuel rd s e with
         | some (s1, p) =>
           (match setBoxedCell fuel s1 c p with
            | some (s2, c') => (releaseAll fuel s2 p.cells).map (fun s3 => (s3, c'))
@@ -292,11 +296,11 @@ def leafOp (fuel : Nat) (ds : DblSem) (s : DState) (c : Cell) : LeafS → Option
   | .touch k => accessCell fuel ds s c k
   | .lapp src => withAccess fuel ds s c 8 (fun s1 p =>
       match p with
-      | .list cs => let (s2, c') := srcCopy s1 src; some (s2, .list (cs ++ [c']))
+      | .list cs => let (s2, c') := srcCopy rd s1 src; some (s2, .list (cs ++ [c']))
       | _ => none)
   | .lpre src => withAccess fuel ds s c 8 (fun s1 p =>
       match p with
-      | .list cs => let (s2, c') := srcCopy s1 src; some (s2, .list (c' :: cs))
+      | .list cs => let (s2, c') := srcCopy rd s1 src; some (s2, .list (c' :: cs))
       | _ => none)
   | .lrem i => withAccess fuel ds s c 8 (fun s1 p =>
       match p with
@@ -306,7 +310,7 @@ def leafOp (fuel : Nat) (ds : DblSem) (s : DState) (c : Cell) : LeafS → Option
       | _ => none)
   | .aapp src => withAccess fuel ds s c 9 (fun s1 p =>
       match p with
-      | .array cs => let (s2, c') := srcCopy s1 src; some (s2, .array (cs ++ [c']))
+      | .array cs => let (s2, c') := srcCopy rd s1 src; some (s2, .array (cs ++ [c']))
       | _ => none)
   | .arem i => withAccess fuel ds s c 9 (fun s1 p =>
       match p with
@@ -317,7 +321,7 @@ def leafOp (fuel : Nat) (ds : DblSem) (s : DState) (c : Cell) : LeafS → Option
   | .mput k src => withAccess fuel ds s c 7 (fun s1 p =>
       match p with
       | .map m =>
-        let (s2, c') := srcCopy s1 src
+        let (s2, c') := srcCopy rd s1 src
         (match mapGet m k with
          | some old => (release fuel s2 old).map (fun s3 => (s3, .map (mapPut m k c')))
          | none => some (s2, .map (m ++ [(k, c')])))
@@ -335,8 +339,8 @@ def leafOp (fuel : Nat) (ds : DblSem) (s : DState) (c : Cell) : LeafS → Option
 
 /-- walk through the mutable accessors along an existing path, then the leaf; returns the new
     content of the cell the walk started from -/
-def walkMut (fuel : Nat) (ds : DblSem) (s : DState) (c : Cell) : List Step → LeafS → Option (DState × Cell)
-  | [], lf => leafOp fuel ds s c lf
+def walkMut (fuel : Nat) (ds : DblSem) (rd : Nat → Cell) (s : Heap) (c : Cell) : List Step → LeafS → Option (Heap × Cell)
+  | [], lf => leafOp fuel ds rd s c lf
   | st :: p, lf =>
     match accessCell fuel ds s c st.kind with
     | some (s1, .ptr b) =>
@@ -344,7 +348,7 @@ def walkMut (fuel : Nat) (ds : DblSem) (s : DState) (c : Cell) : List Step → L
        | some blk =>
          (match blk.pay.getCell st with
           | some ci =>
-            (match walkMut fuel ds s1 ci p lf with
+            (match walkMut fuel ds rd s1 ci p lf with
              | some (s2, ci') =>
                (match s2.heap b with
                 | some blk2 => some (setPay s2 b (blk2.pay.setCell st ci'), .ptr b)
@@ -355,7 +359,7 @@ def walkMut (fuel : Nat) (ds : DblSem) (s : DState) (c : Cell) : List Step → L
     | _ => none
 
 /-- const walk to an element cell -/
-def getCellPath (s : DState) (c : Cell) : List Step → Option Cell
+def getCellPath (s : Heap) (c : Cell) : List Step → Option Cell
   | [] => some c
   | st :: p =>
     match c with
@@ -369,24 +373,26 @@ def setVar (s : DState) (v : Nat) (c : Cell) : DState := { s with vars := upd s.
 
 /-- `operator=(const Variant&)` on variable `v` with the source cell `c` (a variable's or an element's) -/
 def assignFrom (fuel : Nat) (s : DState) (v : Nat) (c : Cell) : Option DState :=
-  let (s1, c') := copyCell s c
-  (release fuel s1 (s1.vars v)).map (fun s2 => setVar s2 v c')
+  let (h1, c') := copyCell s.h c
+  (release fuel h1 (s.vars v)).map (fun h2 => { h := h2, vars := upd s.vars v c' })
 
 /-- `~Variant()` of variable `v` followed by a typed constructor in the same storage.  The
     temporary argument (copies of variables, possibly of `v` itself) exists before the destructor runs. -/
 def newVar (fuel : Nat) (s : DState) (v : Nat) : ValS → Option DState
   | .lit (.str t) =>
-    (release fuel s (s.vars v)).map (fun s1 => let (s2, b) := alloc s1 (.str t); setVar s2 v (.ptr b))
-  | .lit .null => (release fuel s (s.vars v)).map (fun s1 => setVar s1 v .null)
-  | .lit x => if x.isBoxed then none else (release fuel s (s.vars v)).map (fun s1 => setVar s1 v (.inl x))
+    (release fuel s.h (s.vars v)).map (fun h1 => let (h2, b) := alloc h1 (.str t); { h := h2, vars := upd s.vars v (.ptr b) })
+  | .lit .null => (release fuel s.h (s.vars v)).map (fun h1 => { h := h1, vars := upd s.vars v .null })
+  | .lit x =>
+    if x.isBoxed then none
+    else (release fuel s.h (s.vars v)).map (fun h1 => { h := h1, vars := upd s.vars v (.inl x) })
   | e =>
-    (match tmpPay fuel s e with
-     | some (s1, p) =>
-       (match release fuel s1 (s1.vars v) with
-        | some s2 =>
-          let (s3, p') := copyPay s2 p
-          let (s4, b) := alloc s3 p'
-          (releaseAll fuel s4 p.cells).map (fun s5 => setVar s5 v (.ptr b))
+    (match tmpPay fuel s.vars s.h e with
+     | some (h1, p) =>
+       (match release fuel h1 (s.vars v) with
+        | some h2 =>
+          let (h3, p') := copyPay h2 p
+          let (h4, b) := alloc h3 p'
+          (releaseAll fuel h4 p.cells).map (fun h5 => { h := h5, vars := upd s.vars v (.ptr b) })
         | none => none)
      | none => none)
 
@@ -408,28 +414,28 @@ def allocBound : Op → Nat
     harness decides it on the const view before it touches anything).  `none` = fault (out of
     fuel / dangling pointer), which never happens on valid lines. -/
 def dstep (ds : DblSem) (s : DState) (op : Op) : Option DState :=
-  let fuel := s.next + allocBound op + 1
+  let fuel := s.h.next + allocBound op + 1
   match op with
   | .new v e => newVar fuel s v e
   | .copy v w =>
-    (match release fuel s (s.vars v) with
-     | some s1 => let (s2, c) := copyCell s1 (s1.vars w); some (setVar s2 v c)
+    (match release fuel s.h (s.vars v) with
+     | some h1 => let (h2, c) := copyCell h1 (s.vars w); some { h := h2, vars := upd s.vars v c }
      | none => none)
   | .mut v p lf =>
     (match p, lf with
      | [], .assign (.var w) => if v = w then some s else assignFrom fuel s v (s.vars w)
-     | p, lf => (walkMut fuel ds s (s.vars v) p lf).map (fun r => setVar r.1 v r.2))
+     | p, lf => (walkMut fuel ds s.vars s.h (s.vars v) p lf).map (fun r => { h := r.1, vars := upd s.vars v r.2 }))
   | .get v w p =>
-    (match getCellPath s (s.vars w) p with
+    (match getCellPath s.h (s.vars w) p with
      | some c => if p.isEmpty && v = w then some s else assignFrom fuel s v c
      | none => none)
   | .swap v w =>
-    let (s1, t) := copyCell s (s.vars w)
-    let s1 := setVar s1 tmpVar t
+    let (h1, t) := copyCell s.h (s.vars w)
+    let s1 : DState := { h := h1, vars := upd s.vars tmpVar t }
     (match (if w = v then some s1 else assignFrom fuel s1 w (s1.vars v)) with
      | some s2 =>
        (match assignFrom fuel s2 v (s2.vars tmpVar) with
-        | some s3 => (release fuel s3 (s3.vars tmpVar)).map (fun s4 => setVar s4 tmpVar .null)
+        | some s3 => (release fuel s3.h (s3.vars tmpVar)).map (fun h4 => { h := h4, vars := upd s3.vars tmpVar .null })
         | none => none)
      | none => none)
 
